@@ -251,6 +251,39 @@ type BadTag5 struct {
 	A int `db:"-x"`
 }
 
+// tags made of or padded with white space, stray commas
+type BadTag6 struct {
+	A int `db:" "`
+}
+
+type BadTag7 struct {
+	A int `db:"  ,omitempty"`
+}
+
+type BadTag8 struct {
+	A int `db:" id"`
+}
+
+type BadTag9 struct {
+	A int `db:"id "`
+}
+
+type BadTag10 struct {
+	A int `db:"\t"`
+}
+
+type BadTag11 struct {
+	A int `db:"a,"`
+}
+
+type BadTag12 struct {
+	A int `db:"a,omitempty,omitempty"`
+}
+
+type BadTag13 struct {
+	A int `db:",omitempty"`
+}
+
 // Rec embeds a pointer to itself; Rec2/Rec3 form a cycle.
 type Rec struct {
 	*Rec
@@ -332,6 +365,14 @@ var Entries = []Entry{
 	e(BadTag3{}, "struct", true, "a"),
 	e(BadTag4{}, "struct", true, "a"),
 	e(BadTag5{}, "struct", true, "x"),
+	e(BadTag6{}, "struct", true, "a"),
+	e(BadTag7{}, "struct", true, "a"),
+	e(BadTag8{}, "struct", true, "id"),
+	e(BadTag9{}, "struct", true, "id"),
+	e(BadTag10{}, "struct", true, "a"),
+	e(BadTag11{}, "struct", true, "a"),
+	e(BadTag12{}, "struct", true, "a"),
+	e(BadTag13{}, "struct", true, "a"),
 	e(Rec{}, "struct", true, "id"),
 	e(Rec2{}, "struct", true, "a", "b"),
 	e(M{}, "map", false, mapKeys...),
